@@ -1389,8 +1389,13 @@ class Session:
             if k == "L":
                 rt.lines.append(r)
                 return
-            if asyncio.iscoroutine(r):
+            if asyncio.iscoroutine(r) or asyncio.isfuture(r):
                 r = await r
+            elif op[0] in ("send", "activate") and self.scn.driver == "loop" and self.scn.is_async() \
+                    and getattr(rt, "sm", None) is not None:
+                # inside a running loop the documented use is `await sm.send(...)` / `await sm.activate_initial_state()`
+                rt.lines.append(f"X {op[0]} on a machine with coroutine callbacks, called inside a running loop, "
+                                f"returned {type(r).__name__} instead of an awaitable (`await` on it raises TypeError)")
             rt.lines.append(f"R {i} ok {rt.fmt_res(r)} cur={rt.seen()} tid={self.cur_tid}")
         except BaseException as e:
             if not isinstance(e, (Exception, _Tagged)):
